@@ -1628,6 +1628,37 @@ def run(chk):
         for line, arr, ka, idx, ki in viol:
             chk.violation(r_fi, "%s@%s[%s]" % (f["q"], arr[:30], idx[:30]), "%s: `%s` holds one entry per %s cell but is read at `%s`, a%s index: with inactive cells in the grid this is the entry of another cell (or beyond the end of the array)" % (f["q"], arr, ka, idx, "n active" if ki == "active" else " global"), f["file"], line)
 
+    # ---- C05.ctrlphase: the active control of an injector, read back
+    r_cp = chk.rule("C05.ctrlphase", "LoadRestart.cpp injectorControlMode: the stored active-control code <P>Rate comes back as RATE exactly for an injector of phase P (OilRate with oil_injector, WatRate with water_injector, GasRate with gas_injector) and as undefined otherwise; ResVRate, THP, BHP, Group come back as RESV, THP, BHP, GRUP - a rate-controlled injector of one phase must not lose its control because the test names another phase", floor=7)
+    from verif import fallthrough as _ft5
+    icm = [f for f in fx.fns if f["n"] == "injectorControlMode" and f.get("body") and f["file"].endswith("LoadRestart.cpp")]
+    if len(icm) != 1:
+        raise core.AnalysisBroken("LoadRestart.cpp: injectorControlMode: %d definitions" % len(icm))
+    icm = icm[0]
+    sws = [n for n in walk(icm["body"]) if n.get("k") == "Switch"]
+    if len(sws) != 1:
+        raise core.AnalysisBroken("injectorControlMode: %d switch statements" % len(sws))
+    WANT_CP = {"OilRate": "oil_injector", "WatRate": "water_injector", "GasRate": "gas_injector"}
+    WANT_PL = {"ResVRate": "RESV", "THP": "THP", "BHP": "BHP", "Group": "GRUP"}
+    seen_cp = set()
+    for labels, sts in _ft5.sections(sws[0]):
+        for lab in labels:
+            nm = lab.split("::")[-1]
+            txt = " ".join(show(x) for x in sts)
+            seen_cp.add(nm)
+            if nm in WANT_CP:
+                m_ = re.search(r"WellType::(\w+)\(\w+\) \? [\w:]*::RATE : [\w:]*::CMODE_UNDEFINED", txt)
+                chk.instance(r_cp, nm, sample=dict(code=nm, test=m_.group(1) if m_ else None))
+                if not m_ or m_.group(1) != WANT_CP[nm]:
+                    chk.violation(r_cp, nm, "injectorControlMode: the active control %s is restored as RATE under `%s`; it must be `WellType::%s(type) ? RATE : undefined` - otherwise a %s-controlled injector comes back without its control mode" % (nm, txt[:120], WANT_CP[nm], nm), icm["file"], (sts[0].get("l") if sts else icm["l"]))
+            elif nm in WANT_PL:
+                chk.instance(r_cp, nm, sample=dict(code=nm, restored=txt[:80]))
+                if not re.search(r"return [\w:]*::%s;" % WANT_PL[nm], txt):
+                    chk.violation(r_cp, nm, "injectorControlMode: the active control %s is restored by `%s`; it must come back as %s" % (nm, txt[:120], WANT_PL[nm]), icm["file"], (sts[0].get("l") if sts else icm["l"]))
+    miss_cp = [k_ for k_ in list(WANT_CP) + list(WANT_PL) if k_ not in seen_cp]
+    if miss_cp:
+        chk.violation(r_cp, "cases", "injectorControlMode has no case for %s" % miss_cp, icm["file"], icm["l"])
+
     # ---- C05.convonce: an in-place unit conversion is applied once per array
     r_co1 = chk.rule("C05.convonce", "restart reader / writer: an in-place conversion (UnitSystem::to_si / from_si with a vector argument, convertToSI / convertFromSI) that a loop applies to every element of a container is not nested inside another loop that adds to the same object - otherwise every array added earlier is converted again for each later one (a factor is not idempotent), and which arrays come back wrong depends on how many are requested and in what order", floor=2)
     from verif import cow as _cow5
